@@ -24,7 +24,9 @@ The whole first pass of `Harmonic2D` (`Model/MHarmonic.lean`, complex scalar `Cx
 same way with the system handed to `PBCGSolveMod`; proved about it (section `Harmonic`): the flat density of a stranded circuit
 reproduces the complex circuit current, a circuit with conducting regions gets its own unknown (case 2), the eddy coefficient is
 `−j a ω σ c / 12` in solid regions and zero in laminated and wound ones, the complex permeability reduces to the static
-laminated permeability when there is no lag and no conductivity, and a prescribed potential is `(a/c)(cos φ + j sin φ)`.
+laminated permeability when there is no lag and no conductivity, a prescribed potential is `(a/c)(cos φ + j sin φ)`; at element level the
+eddy block is `−jωσc` times the consistent mass matrix, the stiffness part is complex-symmetric, is the reluctivity form and annihilates
+constants.
 Decided per run by the independent SI oracle on the real `.ans` (labelled partial): the global
 statement incl. prescribed-A boundaries, magnets, the time-harmonic system and its circuit unknowns.
 -/
@@ -272,6 +274,77 @@ theorem harmonic_prescribedA_cartesian (k : HConsts K) (lp : HBdryProp K) (x y :
       ⟨(lp.A0 + x / k.ucm * lp.A1 + y / k.ucm * lp.A2) / k.c * k.F.cos (lp.phi * k.deg),
        (lp.A0 + x / k.ucm * lp.A1 + y / k.ucm * lp.A2) / k.c * k.F.sin (lp.phi * k.deg)⟩ := by
   simp [MHarmonic.prescribedA, Cx.cexp, Cx.mulR, Cx.rmul, Cx.I, he]
+
+/-! #### the element matrix of the time-harmonic model -/
+
+/-- the eddy-current loop leaves `2K` on the diagonal and `K` off it -/
+theorem eddyMe_entries (Ke : Cx K) (j k : Fin 3) :
+    (eddyMe Ke).getD (j.val * 3 + k.val) 0 = if j = k then Ke + Ke else Ke := by
+  fin_cases j <;> fin_cases k <;> simp [eddyMe]
+
+/-- **the eddy block of a solid region is `−jωσc` times the consistent mass matrix `a/12 · [2 1 1; 1 2 1; 1 1 2]`** -/
+theorem eddy_block_is_consistent_mass (k : HConsts K) (bp : HBlockProp K) (a : K) (h : ¬ (bp.lamType = 0 ∧ 0 < bp.lamD))
+    (i j : Fin 3) :
+    (eddyMe (eddyK k bp false a)).getD (i.val * 3 + j.val) 0 =
+      ⟨0, -(k.w * bp.cduct * k.c * (a / 12 * (if i = j then 2 else 1)))⟩ := by
+  rw [eddyMe_entries, eddyK_solid k bp a h]
+  by_cases hij : i = j
+  · simp only [hij, if_true]; apply Cx.ext' <;> simp <;> ring
+  · simp only [hij, if_false]; apply Cx.ext' <;> simp <;> ring
+
+/-- the stiffness part is complex-symmetric … -/
+theorem harmStiff_symm (Kc mu1 mu2 v12 : Cx K) (p q : V3 K) (i j : Fin 3) :
+    harmStiff Kc mu1 mu2 v12 p q i j = harmStiff Kc mu1 mu2 v12 p q j i := by
+  have hx : ∀ r : V3 K, harmMx Kc r i j = harmMx Kc r j i := by
+    intro r; fin_cases i <;> fin_cases j <;> simp [harmMx]
+  have hxy : harmMxy Kc p q i j = harmMxy Kc p q j i := by
+    fin_cases i <;> fin_cases j <;> simp [harmMxy]
+  simp only [harmStiff, hx, hxy]
+
+/-- … it is the reluctivity form `K (p_i p_j / μ₂ + q_i q_j / μ₁) + K (p_i q_j + p_j q_i) ν₁₂` … -/
+theorem harmStiff_form (Kc mu1 mu2 v12 : Cx K) (p q : V3 K) (i j : Fin 3) :
+    harmStiff Kc mu1 mu2 v12 p q i j =
+      Kc * Cx.ofReal (p i * p j) / mu2 + Kc * Cx.ofReal (q i * q j) / mu1 + Kc * Cx.ofReal (p i * q j + p j * q i) * v12 := by
+  have hm : ∀ (z : Cx K) (r : K), z.mulR r = z * Cx.ofReal r := Cx.mulR_eq
+  have ho : ∀ a b : K, (Cx.ofReal (a * b) : Cx K) = Cx.ofReal a * Cx.ofReal b := by
+    intro a b; apply Cx.ext' <;> simp [Cx.ofReal]
+  fin_cases i <;> fin_cases j <;> simp [harmStiff, harmMx, harmMxy, hm, ho] <;> ring
+
+/-- … and annihilates constants: **a uniform potential produces no flux**, whatever the (complex, anisotropic) permeabilities -/
+theorem harmStiff_rowsum_zero (Kc mu1 mu2 v12 : Cx K) (p q : V3 K) (hp : p 0 + p 1 + p 2 = 0) (hq : q 0 + q 1 + q 2 = 0) (i : Fin 3) :
+    harmStiff Kc mu1 mu2 v12 p q i 0 + harmStiff Kc mu1 mu2 v12 p q i 1 + harmStiff Kc mu1 mu2 v12 p q i 2 = 0 := by
+  simp only [harmStiff_form]
+  have ho : ∀ a b : K, (Cx.ofReal (a * b) : Cx K) = Cx.ofReal a * Cx.ofReal b := by
+    intro a b; apply Cx.ext' <;> simp [Cx.ofReal]
+  have hoa : ∀ a b : K, (Cx.ofReal (a + b) : Cx K) = Cx.ofReal a + Cx.ofReal b := by
+    intro a b; apply Cx.ext' <;> simp [Cx.ofReal]
+  have hP : (Cx.ofReal (p 0) : Cx K) + Cx.ofReal (p 1) + Cx.ofReal (p 2) = 0 := by
+    rw [← hoa, ← hoa, hp]; rfl
+  have hQ : (Cx.ofReal (q 0) : Cx K) + Cx.ofReal (q 1) + Cx.ofReal (q 2) = 0 := by
+    rw [← hoa, ← hoa, hq]; rfl
+  simp only [ho, hoa]
+  have e1 : Kc * (Cx.ofReal (p i) * Cx.ofReal (p 0)) / mu2 + Kc * (Cx.ofReal (p i) * Cx.ofReal (p 1)) / mu2 +
+      Kc * (Cx.ofReal (p i) * Cx.ofReal (p 2)) / mu2 = Kc * Cx.ofReal (p i) / mu2 * (Cx.ofReal (p 0) + Cx.ofReal (p 1) + Cx.ofReal (p 2)) := by ring
+  have e2 : Kc * (Cx.ofReal (q i) * Cx.ofReal (q 0)) / mu1 + Kc * (Cx.ofReal (q i) * Cx.ofReal (q 1)) / mu1 +
+      Kc * (Cx.ofReal (q i) * Cx.ofReal (q 2)) / mu1 = Kc * Cx.ofReal (q i) / mu1 * (Cx.ofReal (q 0) + Cx.ofReal (q 1) + Cx.ofReal (q 2)) := by ring
+  have e3 : Kc * (Cx.ofReal (p i) * Cx.ofReal (q 0) + Cx.ofReal (p 0) * Cx.ofReal (q i)) * v12 +
+      Kc * (Cx.ofReal (p i) * Cx.ofReal (q 1) + Cx.ofReal (p 1) * Cx.ofReal (q i)) * v12 +
+      Kc * (Cx.ofReal (p i) * Cx.ofReal (q 2) + Cx.ofReal (p 2) * Cx.ofReal (q i)) * v12 =
+      Kc * v12 * (Cx.ofReal (p i) * (Cx.ofReal (q 0) + Cx.ofReal (q 1) + Cx.ofReal (q 2)) +
+        Cx.ofReal (q i) * (Cx.ofReal (p 0) + Cx.ofReal (p 1) + Cx.ofReal (p 2))) := by ring
+  calc _ = (Kc * (Cx.ofReal (p i) * Cx.ofReal (p 0)) / mu2 + Kc * (Cx.ofReal (p i) * Cx.ofReal (p 1)) / mu2 +
+        Kc * (Cx.ofReal (p i) * Cx.ofReal (p 2)) / mu2) +
+      (Kc * (Cx.ofReal (q i) * Cx.ofReal (q 0)) / mu1 + Kc * (Cx.ofReal (q i) * Cx.ofReal (q 1)) / mu1 +
+        Kc * (Cx.ofReal (q i) * Cx.ofReal (q 2)) / mu1) +
+      (Kc * (Cx.ofReal (p i) * Cx.ofReal (q 0) + Cx.ofReal (p 0) * Cx.ofReal (q i)) * v12 +
+        Kc * (Cx.ofReal (p i) * Cx.ofReal (q 1) + Cx.ofReal (p 1) * Cx.ofReal (q i)) * v12 +
+        Kc * (Cx.ofReal (p i) * Cx.ofReal (q 2) + Cx.ofReal (p 2) * Cx.ofReal (q i)) * v12) := by ring
+    _ = 0 := by rw [e1, e2, e3, hP, hQ]; ring
+
+/-- the shape parameters the assembly uses do sum to zero -/
+theorem shape_sums (x y : V3 K) :
+    shapeP y 0 + shapeP y 1 + shapeP y 2 = 0 ∧ shapeQ x 0 + shapeQ x 1 + shapeQ x 2 = 0 := by
+  constructor <;> simp [shapeP, shapeQ] <;> ring
 
 end Harmonic
 
